@@ -2152,6 +2152,26 @@ def pattern_neg_16(context, tree, c0):
     return d
 
 
+@isa.pattern("reg8", "NEGI8(reg8)", size=4)
+@isa.pattern("reg8", "NEGU8(reg8)", size=4)
+def pattern_neg_8(context, tree, c0):
+    """8 bits negation: 0 - value"""
+    d = context.new_reg(Register8)
+    context.emit(MovImm8(d, 0))
+    context.emit(SubRegRm8(d, RmReg8(c0)))
+    return d
+
+
+@isa.pattern("reg8", "INVI8(reg8)", size=4)
+@isa.pattern("reg8", "INVU8(reg8)", size=4)
+def pattern_inv_8(context, tree, c0):
+    """8 bits bitwise not: 0xff xor value"""
+    d = context.new_reg(Register8)
+    context.emit(MovImm8(d, 0xFF))
+    context.emit(XorRegRm8(d, RmReg8(c0)))
+    return d
+
+
 @isa.pattern("reg64", "INVI64(reg64)", size=3)
 @isa.pattern("reg64", "INVU64(reg64)", size=3)
 def pattern_inv64(context, tree, c0):
